@@ -244,6 +244,15 @@ def gen_cases(prop, seed, n_types, per):
         if prop == "C13" and rnd.random() < 0.7:
             t = g.g_union(3)
         types.append(t)
+    if prop in ("C01", "C02", "C03", "C08"):
+        # the empty tuple `Tuple[()]` (its `get_args` is empty, like the bare `Tuple`'s): alone, in a list, optional, next to a one-element tuple
+        from gen import Node
+        et = Node("tuple", ["tuple", []], "Tuple[()]", [])
+        one = Node("tuple", ["tuple", [["int"]]], "Tuple[int]", [g.g_int(0)])
+        flat = [[], [1], [[]], [1, 2], None, ["a"], {}]
+        types += [Node("tuple", ["tuple", []], "Tuple[()]", [], fixed_data=flat), Node("list", ["list", et.lean], "List[Tuple[()]]", [et], fixed_data=[[x] for x in flat] + [[], [[], []]]),
+                  Node("optional", ["union", [et.lean, ["none"]]], "Optional[Tuple[()]]", [et], fixed_data=flat),
+                  Node("union", ["union", [et.lean, one.lean]], "Union[Tuple[()], Tuple[int]]", [et, one], fixed_data=flat)]
     mod = build_module(pool.source(), f"{prop}_{seed}"); ns = dict(vars(mod))
     cases = []
     for t in types:
@@ -256,6 +265,7 @@ def gen_cases(prop, seed, n_types, per):
                 d = g.mutate(d)
                 if prop == "C02":                     # k >= 1 simultaneous violations at distinct paths
                     for _ in range(rnd.randint(0, 2)): d = g.mutate(d)
+            if getattr(t, "fixed_data", None): d = copy.deepcopy(rnd.choice(t.fixed_data))
             coerce = (prop == "C14") or (prop == "C03" and rnd.random() < 0.4) or (prop == "C02" and t.kind == "optional" and rnd.random() < 0.5)
             if coerce and rnd.random() < 0.8: d = cmutate(rnd, d)
             if prop == "C03" and rnd.random() < 0.5:
